@@ -183,9 +183,33 @@ fn sequence<E: Entry>(ctx: &mut Ctx) {
                 }
             }
             2 => {
-                // continue on a clone (the original is kept and re-read at the end)
-                if let Some(r2) = E::clone_r(&c.live.r) {
-                    ctx.log("r = r.clone()".into());
+                // continue on a copy (clone, or clone_from into a region with unrelated contents);
+                // the original is kept and re-read afterwards
+                let copy = if ctx.rng.chance(1, 2) {
+                    E::clone_r(&c.live.r).map(|r| {
+                        ctx.log("r = r.clone()".into());
+                        r
+                    })
+                } else if E::can_clone() {
+                    let mut dst = Live::<E>::new("dst");
+                    let mut ok = true;
+                    for _ in 0..ctx.rng.below(5) {
+                        let v = pool[ctx.rng.below(pool.len())].clone();
+                        if dst.push(ctx, &v, 0).is_none() {
+                            ok = false;
+                            break;
+                        }
+                    }
+                    if !ok {
+                        break;
+                    }
+                    E::clone_from_r(&mut dst.r, &c.live.r);
+                    ctx.log("dst.clone_from(&r); r = dst".into());
+                    Some(dst.r)
+                } else {
+                    None
+                };
+                if let Some(r2) = copy {
                     let issued = c.live.issued.clone();
                     let last = c.last.clone();
                     let had = c.had_hit;
@@ -193,10 +217,18 @@ fn sequence<E: Entry>(ctx: &mut Ctx) {
                     c.live.issued = issued;
                     c.last = last;
                     c.had_hit = had;
+                    if !c.live.check_all(ctx, Lvl::BASIC, "collapse-copy-reads") {
+                        break;
+                    }
                     if let Some(p) = prev.clone() {
                         if !{ let f__ = ctx.rng.below(nforms); c.push(ctx, &p, f__) } {
                             break;
                         }
+                    }
+                    // a different item right after the copy must not collapse into anything
+                    let v = draw::<E>(ctx, &pool, None);
+                    if !{ let f__ = ctx.rng.below(nforms); c.push(ctx, &v, f__) } {
+                        break;
                     }
                     if !orig.check_all(ctx, Lvl::BASIC, "collapse-clone-original") {
                         break;
